@@ -8,6 +8,7 @@ import CogentModel.Model.GenBankLoc
 import CogentModel.Spec.SeqRecords
 import CogentModel.Model.Clustal
 import CogentModel.Spec.ClustalRecords
+import CogentModel.Spec.ClustalDecoratedCheck
 open CogentModel CogentModel.Splitlines CogentModel.SeqFormats
 
 def errStr : Err → String
@@ -139,6 +140,9 @@ def handle (cmd : String) (j : J) : Except String J :=
   | "clustal_spec" => do
     let s ← getStr j "s"
     pure (J.obj [("clustalName", J.bool (ClustalSpec.clustalName s)), ("clustalSeq", J.bool (ClustalSpec.clustalSeq s))])
+  | "decor_check" => do
+    -- the executable recogniser of the decorated-file shape (Props/C06Decor.lean checkDecorated_sound)
+    pure (J.bool (ClustalSpec.checkDecorated (← getRecs j "pairs") (← getLines j "lines")))
   | _ => throw s!"unknown command {cmd}"
 
 def main : IO Unit := driverLoop handle
